@@ -820,6 +820,35 @@ class Interp:
         if isinstance(v, (list, tuple, dict, str, set, frozenset)): return len(v)
         return self.world.native_len(self, v)
 
+def is_private_name(name):
+    return name.startswith('_') and not (name.startswith('__') and name.endswith('__'))
+
+def private_helper(it, cls, name, recv, inlined=None):
+    """a private member `name` that `cls` (or one of its pytableaux bases) defines and the class model has no contract for:
+    refactorings extract such helpers all the time, so the interpretation follows the code into them (plain function ->
+    BoundSource, staticmethod -> the function, property -> its value).  -> (True, value) or (False, None)"""
+    import types
+    from . import source
+    if not is_private_name(name): return False, None
+    for c in getattr(cls, '__mro__', ()):
+        if name in c.__dict__:
+            if not str(getattr(c, '__module__', '')).startswith('pytableaux'): return False, None
+            v = c.__dict__[name]
+            if isinstance(v, types.FunctionType):
+                fi = source.of_function(v)
+                if inlined is not None: inlined[fi.key] = fi
+                return True, BoundSource(fi, v, c, recv)
+            if isinstance(v, staticmethod) and isinstance(v.__func__, types.FunctionType):
+                fi = source.of_function(v.__func__)
+                if inlined is not None: inlined[fi.key] = fi
+                return True, BoundSource(fi, v.__func__, c, None)
+            if isinstance(v, property) and isinstance(v.fget, types.FunctionType):
+                fi = source.of_function(v.fget)
+                if inlined is not None: inlined[fi.key] = fi
+                return True, it.call_source(fi, v.fget, c, [recv], {}, recv=recv)
+            return False, None
+    return False, None
+
 class LocalList(list):
     "a list created by the interpreted code itself (mutation allowed)"
 class LocalDict(dict):
